@@ -4,10 +4,12 @@ package main
 // MergeCreateFile, MergeAppendFile, MergeCreateZipFile and compare marker sequences; inputs must stay unchanged.
 
 import (
+	"bytes"
 	"crypto/sha256"
 	"encoding/json"
 	"fmt"
 	"hash/fnv"
+	"io"
 	"os"
 	"path/filepath"
 	"sort"
@@ -26,6 +28,9 @@ type part33 struct {
 
 type case33 struct {
 	Kind    string            `json:"kind"`
+	API     string            `json:"api"`  // "file" | "raw" (stream variant of the API)
+	Conf    *ConfIn           `json:"conf"`
+	Sel     []string          `json:"sel"`
 	Trees   []json.RawMessage `json:"trees"`
 	Span    int               `json:"span"`
 	Nrs     []int             `json:"nrs"`
@@ -133,7 +138,11 @@ func c33main() {
 				name = "doc.pdf"
 			}
 			p := filepath.Join(dir, name)
-			if err := os.WriteFile(p, buildDoc(d, docExtras{}), 0644); err != nil {
+			ex := docExtras{}
+			if c.Kind == "splitbm" {
+				ex.bookmarks = c.Nrs
+			}
+			if err := os.WriteFile(p, buildDoc(d, ex), 0644); err != nil {
 				return err
 			}
 			ms, err := markersStrict(p)
@@ -155,17 +164,85 @@ func c33main() {
 				}
 			}
 		}
+		label := c.Kind
+		if c.API == "raw" {
+			label += "-raw"
+		}
+		// readParts reads a list of readers handed out by a stream API - only now, after the call has returned.
+		readParts := func(rds []io.Reader, froms, thrus []int) bool {
+			if len(rds) != len(c.Parts) {
+				fail(label+"|count", fmt.Sprintf("expected %d parts, got %d", len(c.Parts), len(rds)), nil)
+				return false
+			}
+			for i, rd := range rds {
+				bb, err := io.ReadAll(rd)
+				if err != nil {
+					fail(label+"|part-unreadable", fmt.Sprintf("part %d: %v", i+1, err), nil)
+					return false
+				}
+				pp := filepath.Join(dir, "out", fmt.Sprintf("part%d.pdf", i+1))
+				if err := os.WriteFile(pp, bb, 0644); err != nil {
+					h.Die("%v", err)
+				}
+				if froms[i] != c.Parts[i].From || thrus[i] != c.Parts[i].Thru {
+					fail(label+"|names", fmt.Sprintf("part %d: expected pages %d-%d", i+1, c.Parts[i].From, c.Parts[i].Thru), []int{froms[i], thrus[i]})
+					return false
+				}
+				ms, err := markersStrict(pp)
+				if err != nil {
+					fail(label+"|part-unreadable", fmt.Sprintf("part %d: %v", i+1, err), nil)
+					return false
+				}
+				if !eqStrs(ms, c.Parts[i].Marks) {
+					fail(label+"|part-markers", fmt.Sprintf("part %d (pages %d-%d): expected pages %v", i+1, froms[i], thrus[i], c.Parts[i].Marks), ms)
+					return false
+				}
+			}
+			return true
+		}
 		switch c.Kind {
-		case "split", "splitnr":
+		case "split", "splitnr", "splitbm":
 			outDir := filepath.Join(dir, "out")
 			var err error
-			label := c.Kind
-			if c.Kind == "split" {
-				err = api.SplitFile(ins[0], outDir, c.Span, nil)
-			} else {
-				err = api.SplitByPageNrFile(ins[0], outDir, c.Nrs, nil)
-			}
 			kinds[label]++
+			if c.API == "raw" {
+				f, oerr := os.Open(ins[0])
+				if oerr != nil {
+					return oerr
+				}
+				span := c.Span
+				if c.Kind == "splitbm" {
+					span = 0
+				}
+				pss, err := api.SplitRaw(f, span, c.Conf.conf())
+				f.Close()
+				if err != nil {
+					fail(label+"|error", "valid request failed: "+err.Error(), nil)
+					return nil
+				}
+				var rds []io.Reader
+				var froms, thrus []int
+				for _, ps := range pss {
+					rds = append(rds, ps.Reader)
+					froms = append(froms, ps.From)
+					thrus = append(thrus, ps.Thru)
+				}
+				if readParts(rds, froms, thrus) {
+					unchanged(0, label)
+					if len(c.Parts) > 1 {
+						nontriv[fmt.Sprintf("%s|%d|%d|%v", label, len(orig[0]), c.Span, c.Nrs)] = true
+					}
+				}
+				return nil
+			}
+			switch c.Kind {
+			case "split":
+				err = api.SplitFile(ins[0], outDir, c.Span, c.Conf.conf())
+			case "splitnr":
+				err = api.SplitByPageNrFile(ins[0], outDir, c.Nrs, c.Conf.conf())
+			case "splitbm":
+				err = api.SplitFile(ins[0], outDir, 0, c.Conf.conf())
+			}
 			es, _ := os.ReadDir(outDir)
 			var names []string
 			for _, e := range es {
@@ -183,12 +260,15 @@ func c33main() {
 				fail(label+"|error", "valid request failed: "+err.Error(), names)
 				return nil
 			}
-			// the names the API gives: <base>_<from>[-<thru>].pdf
+			// the names the API gives: <base>_<from>[-<thru>].pdf, <bookmark title>.pdf for the split along bookmarks
 			var want []string
-			for _, p := range c.Parts {
+			for i, p := range c.Parts {
 				n := fmt.Sprintf("doc_%d-%d.pdf", p.From, p.Thru)
 				if p.From == p.Thru {
 					n = fmt.Sprintf("doc_%d.pdf", p.From)
+				}
+				if c.Kind == "splitbm" {
+					n = fmt.Sprintf("bm%d.pdf", i+1)
 				}
 				want = append(want, n)
 			}
@@ -212,23 +292,77 @@ func c33main() {
 				}
 				concat = append(concat, ms...)
 			}
-			if !eqStrs(concat, orig[0]) {
+			if c.Kind != "splitbm" && !eqStrs(concat, orig[0]) {
 				fail(label+"|concat", "concatenation of the parts differs from the original page sequence", concat)
 				return nil
 			}
 			unchanged(0, label)
 			if len(c.Parts) > 1 {
-				nontriv[fmt.Sprintf("%s|%d|%d|%v", c.Kind, len(orig[0]), c.Span, c.Nrs)] = true
+				nontriv[fmt.Sprintf("%s|%d|%d|%v", label, len(orig[0]), c.Span, c.Nrs)] = true
+			}
+		case "extract":
+			kinds[label]++
+			f, oerr := os.Open(ins[0])
+			if oerr != nil {
+				return oerr
+			}
+			var rds []io.Reader
+			var nrs []int
+			sel := c.Sel
+			if len(sel) == 0 {
+				sel = nil
+			}
+			err := api.ExtractPages(f, sel, func(rd io.Reader, pageNr int) error {
+				rds = append(rds, rd)
+				nrs = append(nrs, pageNr)
+				return nil
+			}, c.Conf.conf())
+			f.Close()
+			if err != nil {
+				fail(label+"|error", "valid request failed: "+err.Error(), nil)
+				return nil
+			}
+			if readParts(rds, nrs, nrs) {
+				unchanged(0, label)
+				if len(c.Parts) > 0 && len(c.Parts) < len(orig[0]) {
+					nontriv[fmt.Sprintf("%s|%d|%v", label, len(orig[0]), c.Sel)] = true
+				}
 			}
 		case "merge":
 			o := filepath.Join(dir, "out", "m.pdf")
-			label := "merge-" + c.Mode
+			label = "merge-" + c.Mode
+			if c.API == "raw" {
+				label += "-raw"
+			}
 			kinds[label]++
 			var err error
 			from := 0
 			switch c.Mode {
 			case "create":
-				err = api.MergeCreateFile(ins, o, c.Divider, nil)
+				if c.API == "raw" {
+					var rsc []io.ReadSeeker
+					var fs []*os.File
+					for _, p := range ins {
+						f, oerr := os.Open(p)
+						if oerr != nil {
+							return oerr
+						}
+						fs = append(fs, f)
+						rsc = append(rsc, f)
+					}
+					var buf bytes.Buffer
+					err = api.MergeRaw(rsc, &buf, c.Divider, c.Conf.conf())
+					for _, f := range fs {
+						f.Close()
+					}
+					if err == nil {
+						if werr := os.WriteFile(o, buf.Bytes(), 0644); werr != nil {
+							return werr
+						}
+					}
+				} else {
+					err = api.MergeCreateFile(ins, o, c.Divider, c.Conf.conf())
+				}
 			case "append":
 				b, rerr := os.ReadFile(ins[0])
 				if rerr != nil {
@@ -238,11 +372,11 @@ func c33main() {
 					return werr
 				}
 				from = 1
-				err = api.MergeAppendFile(ins[1:], o, c.Divider, nil)
+				err = api.MergeAppendFile(ins[1:], o, c.Divider, c.Conf.conf())
 			case "appendnew":
-				err = api.MergeAppendFile(ins, o, c.Divider, nil)
+				err = api.MergeAppendFile(ins, o, c.Divider, c.Conf.conf())
 			case "zip":
-				err = api.MergeCreateZipFile(ins[0], ins[1], o, nil)
+				err = api.MergeCreateZipFile(ins[0], ins[1], o, c.Conf.conf())
 			default:
 				h.Die("unknown merge mode %q", c.Mode)
 			}
@@ -265,7 +399,8 @@ func c33main() {
 				for _, m := range orig {
 					sz = append(sz, len(m))
 				}
-				nontriv[fmt.Sprintf("%s|%v|%v", c.Mode, sz, c.Divider)] = true
+				cj, _ := json.Marshal(c.Conf)
+				nontriv[fmt.Sprintf("%s|%v|%v|%s", label, sz, c.Divider, cj)] = true
 			}
 		default:
 			h.Die("unknown case kind %q", c.Kind)
